@@ -583,11 +583,33 @@ pub fn invalid_atoms(schema: &Value, value: &Value, defs: &Defs, depth: u32, out
     for key in ["anyOf", "oneOf"] {
         if let Some(Value::Array(subs)) = s.get(key) {
             // nullable wrapper: descend into the non-null branch
-            if subs.len() == 2 && !value.is_null() {
+            let nullable_wrapper = subs.len() == 2 && subs.iter().any(|sub| sub.get("type") == Some(&Value::String("null".into())));
+            if nullable_wrapper && !value.is_null() {
                 for sub in subs {
                     if sub.get("type") != Some(&Value::String("null".into())) {
                         invalid_atoms(sub, value, defs, depth + 1, out);
                     }
+                }
+            } else if let Value::Object(members) = value {
+                // an enum of object alternatives: when exactly ONE alternative has
+                // the shape of the value (declares all its members, none of its
+                // required members is absent), the invalid part lies inside it
+                let shaped: Vec<&Value> = subs
+                    .iter()
+                    .filter(|sub| {
+                        let d = deref(sub, defs, 0);
+                        let Some(props) = d.get("properties").and_then(|p| p.as_object()) else { return false };
+                        let declared = members.keys().all(|k| props.contains_key(k));
+                        let required_present = d
+                            .get("required")
+                            .and_then(|r| r.as_array())
+                            .map(|r| r.iter().all(|k| k.as_str().map(|k| members.contains_key(k)).unwrap_or(true)))
+                            .unwrap_or(true);
+                        declared && required_present && !members.is_empty()
+                    })
+                    .collect();
+                if shaped.len() == 1 {
+                    invalid_atoms(shaped[0], value, defs, depth + 1, out);
                 }
             }
         }
